@@ -97,7 +97,7 @@ def ospwc_post(a, num, result):
             (is_ndarray(result) and len(result) == (len(a) - 1) * num + 1
              and forall(range(len(a) - 1), lambda k: forall(range(num), lambda j:
                         result[k * num + j] == a[k] and 0 <= k * num + j and k * num + j < (len(a) - 1) * num))
-             and result[(len(a) - 1) * num] == a[len(a) - 1]))
+             and result[(len(a) - 1) * num] == a[len(a) - 1] and result[0] == a[0]))
 
 
 # ------------------------------------------------------------------ extend_linspace
